@@ -452,9 +452,11 @@ fn judge_graph_in(
             res.add("outcome_ok", 1);
             let js = j_values(img);
             if js.len() != 1 << spec.edges.len() {
-                res.harness.push(format!("cannot read J values from the image ({} of {})", js.len(), 1usize << spec.edges.len()));
-            }
-            if let Some((i, j)) = js.iter().enumerate().find(|(_, j)| !(j.is_finite() && **j > 0.0)) {
+                // the serialised layout is not the one this reader knows (a legitimate
+                // change): the J clause cannot be decided for this build, which is
+                // counted, never an error and never a verdict
+                res.add("j_values_not_readable_from_the_image", 1);
+            } else if let Some((i, j)) = js.iter().enumerate().find(|(_, j)| !(j.is_finite() && **j > 0.0)) {
                 // only judged outside the band: inside it J may legitimately be huge
                 if m.verdict == Verdict::MustOk {
                     push(res, "ok-with-nonpositive-or-nonfinite-J", "all J finite and > 0".into(), format!("J[{:#b}] = {:?}", i, j));
